@@ -15,8 +15,8 @@ LEVEL = 'other'
 EXPLANATION = (
     'Bounded, shape-enumerated check; nothing is proved for unbounded trees. The invariant of a k-d tree is an inductive predicate '
     'over an unbounded heap structure and delete_node rewrites an unbounded path; cbmc has no inductive heap predicates, so no '
-    'function contract over "any tree" can be stated. Instead: for EVERY binary tree shape with <= 3 nodes (quick: empty + 8 shapes) '
-    'and <= 4 nodes (thorough: + 14 shapes) the real text of KDTree (cut from src/KDTree-inl.hh on every run, instantiated as '
+    'function contract over "any tree" can be stated. Instead: for EVERY binary tree shape with <= 3 nodes (quick: empty + 8 shapes, all '
+    'operations; plus delete_node on the 14 four-node shapes) and <= 4 nodes (thorough: all operations on the 14 four-node shapes) the real text of KDTree (cut from src/KDTree-inl.hh on every run, instantiated as '
     'KDTree<Vector2<int16_t>, int>, in thorough also Vector3<int16_t> and Vector2<int64_t>) is executed symbolically ONCE per '
     '(shape, operation) from an arbitrary state of that shape: pointers are built from indices, all coordinates and values are '
     'symbolic and constrained only by the ordering invariant (before: strictly smaller on the split axis, after_or_equal: the rest), '
@@ -46,7 +46,7 @@ ASSUMPTIONS = [
 DROPS = ('template instantiation by macro (CoordType = Vector2/Vector3 of T, ValueType = int); references -> pointers; returned '
          'Iterator and vector -> out-parameter; std::deque / vector / pair -> stubs; new/delete -> node pool stub; throw -> verif_exc '
          'flag; try/catch -> goto + flag; const-qualification of methods dropped; emplace(), depth(), count_subtree(), collect_into() '
-         'and Iterator::operator++(int) / operator-> are not extracted (not part of the statement)')
+         'are not extracted (not part of the statement)')
 NOT_DECIDED = [
     'trees with more than 4 nodes (3 in the quick tier): nothing is proved for them; the per-shape checks are inductive steps for '
     'trees of the enumerated sizes only',
@@ -162,6 +162,8 @@ def build_unit(ctx, src, nd):
         it_eq='bool Iterator_eq(const Iterator* self, const Iterator* other)',
         it_ne='bool Iterator_ne(const Iterator* self, const Iterator* other)',
         it_deref='const Pair* Iterator_deref(const Iterator* self)',
+        it_arrow='const Pair* Iterator_arrow(const Iterator* self)',
+        it_postinc='Iterator Iterator_postinc(Iterator* self)',
         begin='void KDTree_begin(const KDTree* self, Iterator* ret)',
         end='void KDTree_end(const KDTree* self, Iterator* ret)',
     )
@@ -203,6 +205,10 @@ def build_unit(ctx, src, nd):
                rules=[R(r'\bself->operator==\(other\)', 'Iterator_eq(self, other)', count=1)])
     u.function(src, KD, K + r'Iterator::operator\*\(\) const', new_header=H['it_deref'],
                rules=[R(r'\breturn self->current;', 'return &self->current;', count=1)])
+    u.function(src, KD, K + r'Iterator::operator->\(\) const', new_header=H['it_arrow'],
+               rules=[R(r'\breturn &self->current;', 'return &self->current;', count=1)])
+    u.function(src, KD, K + r'Iterator::operator\+\+\(int\)', new_header=H['it_postinc'],
+               rules=[R(r'\*this\b', '*self', count=1), R(r'\bself->operator\+\+\(\)', 'Iterator_preinc(self)', count=1)])
     u.function(src, KD, K + r'begin\(\) const', new_header=H['begin'],
                rules=[R(r'\breturn Iterator\(self->root\);', 'Iterator_ctor(ret, self->root); return;', count=1)])
     u.function(src, KD, K + r'end\(\) const', new_header=H['end'],
@@ -285,7 +291,7 @@ def groups_for(parent, side, nd, coord, tier, tag=''):
     # (instead of the global one) divides the formula size by 4 (measured on the 4-node chain)
     tight = 'KDTree_delete_node.0:%d,KDTree_find_subtree_min_max.0:%d' % (max(n + 1, 2), max(n + 1, 2))
 
-    def G(op, fn, entry, defs=(), t=tier, timeout=300, mode=None):
+    def G(op, fn, entry, defs=(), t=tier, timeout=300 if n < 4 else 900, mode=None):
         flags = ['--unwind', unwind, '--unwinding-assertions', '--no-malloc-may-fail']
         if entry in ('h_delete_node', 'h_erase', 'h_erase_advance'):
             flags += ['--unwindset', tight]
@@ -306,7 +312,7 @@ def groups_for(parent, side, nd, coord, tier, tag=''):
     G('exists', 'KDTree::exists(pt)', 'h_exists')
     G('within', 'KDTree::within', 'h_within')
     G('exists_range', 'KDTree::exists(low, high)', 'h_exists_range')
-    G('iterate', 'KDTree::begin / end / Iterator::operator++ / == / != / *', 'h_iterate')
+    G('iterate', 'KDTree::begin / end / Iterator::operator++ / ++(int) / == / != / * / ->', 'h_iterate')
     # iteration with erase_advance: one group per erase pattern (bit s = erase the entry visited at step s); with symbolic
     # decisions the same check needs > 300 s already for 3 nodes, the 2^n concrete patterns take < 1 s each
     for mask in range(1 << n):
@@ -344,7 +350,7 @@ def plan(ctx):
 MANIFEST = dict(
     category='other',
     text=('BOUNDED ONLY, nothing is proved for trees of unbounded size. The text of KDTree (insert/link_node, erase, delete_node, '
-          'find_subtree_min_max, at, exists, within, exists(low,high), erase_advance, Iterator ctor/++/==/!=/*, begin/end, size, ~KDTree) and of '
+          'find_subtree_min_max, at, exists, within, exists(low,high), erase_advance, Iterator ctor/++/++(int)/==/!=/*/->, begin/end, size, ~KDTree) and of '
           'Vector2/Vector3::at/==/dimensions is cut from /repo/src on every run, instantiated as KDTree<Vector2<int16_t>, int> and executed '
           'symbolically by cbmc once per (tree shape, operation): every binary tree shape with <= 3 nodes (empty tree + 8 shapes; all operations) and, '
           'for delete_node, every shape with 4 nodes (14 shapes) in the quick tier; thorough adds all operations on the 14 four-node shapes and repeats '
